@@ -76,7 +76,8 @@ def run(tier, replay=None):
                     want = "<a parse error report>"
                 elif "err" in o:
                     want = outtxt + "RUNTIME ERROR : " + ERRTXT.get(o["err"], o["err"])
-                    ok = seg.startswith(want) or seg.startswith(outtxt + "RUNTIME ERROR : " + ERRTXT.get(o.get("alt", o["err"]), "?"))
+                    ok = seg.startswith(want) or seg.startswith(outtxt + "RUNTIME ERROR : " + ERRTXT.get(o.get("alt", o["err"]), "?")) or \
+                        seg.startswith(outtxt + "RUNTIME ERROR : " + ERRTXT.get(o.get("alt2", o["err"]), "?"))
                 else:
                     v = render_val(o["val"])
                     want = outtxt + "> " + (('"%s"' % v) if o["val"]["k"] == "str" else v) + "\n"
